@@ -5,7 +5,11 @@ from . import civil as C
 from . import zones as Z
 from . import tzif as T
 
-THEOREMS = {'C01': [], 'C02': [], 'C03': [], 'C06': [], 'C10': [], 'C11': [], 'C14': []}
+THEOREMS = {'C01': ['Cctz.C01.breakTime_table', 'Cctz.C01.breakTime_shift', 'Cctz.C01.fixed_table', 'Cctz.C01.fixed_lookup'],
+            'C02': [], 'C03': [], 'C06': [],
+            'C10': ['Cctz.C10.saturate_max', 'Cctz.C10.saturate_max_small', 'Cctz.C10.saturate_min', 'Cctz.C10.saturate_min_small',
+                    'Cctz.C10.max_roundtrip', 'Cctz.C10.min_roundtrip', 'Cctz.C10.saturate_max_needs_time_bound'],
+            'C11': [], 'C14': []}
 K400 = Z.K400
 
 
